@@ -1,5 +1,6 @@
 import PySMT.Proofs.C02Model
 import PySMT.Proofs.SimpFold
+import PySMT.Proofs.SimpTotal
 /-!
 # C02 exactness: `getValue` returns *the* constant the formula denotes
 
@@ -268,5 +269,75 @@ theorem interpOf_complete (σ σ' : Asg) (syms : List Sym)
         exact default_eval this.symm I0
   simp only [interpOf] at this ⊢
   rw [this]
+
+/-! ## without the proviso -/
+
+theorem interpOf_tot (σ : Asg) : (interpOf σ).Tot := ⟨rfl, rfl⟩
+
+/-- substitution of constants preserves the value under every interpretation extending the
+assignment — no condition on divisions -/
+theorem substConst_eval (σ : Asg) (hσ : AsgOK σ) (I : Interp) (hext : Extends I σ) :
+    (t : Term) → t.wf = true → qf t = true → eval I (substConst σ t) = eval I t
+  | .node op args p => fun hwf hqf => by
+    obtain ⟨hq, hqa⟩ := qf_node hqf
+    by_cases hsym : op = .symbol
+    · subst hsym
+      have hp : ∃ s, p = .sym s := by
+        have := wf_tyNode hwf
+        cases p <;> first | exact ⟨_, rfl⟩ | (exfalso; revert this; rw [typeOfNode_symbol_eq]; simp)
+      obtain ⟨s, rfl⟩ := hp
+      rw [substConst_symbol]
+      cases hg : σ.get s with
+      | none => rfl
+      | some c => simp only [Option.getD_some]; rw [hext s c hg, eval_symbol]
+    · rw [substConst_other σ op args p hsym]
+      have hev : (args.map (substConst σ)).map (eval I) = args.map (eval I) := by
+        rw [List.map_map]
+        exact List.map_congr_left (fun a ha => substConst_eval σ hσ I hext a (wf_args hwf a ha) (hqa a ha))
+      by_cases hfn : op = .function
+      · subst hfn
+        rw [eval_node, eval_node, evalNode_function, evalNode_function]
+        cases p <;> try rfl
+        simp only [List.map_map]
+        congr 1
+        simpa [List.map_map] using hev
+      · rw [eval_plain I op _ p hsym hfn hq, eval_plain I op _ p hsym hfn hq, hev]
+
+/-- whatever `simp` makes of the substituted formula has the value of the formula under the
+interpretation the assignment stands for (divisions by zero allowed: `interpOf` maps `x / 0` to 0) -/
+theorem simp_subst_eval (σ : Asg) (hσ : AsgOK σ) (f : Term) (τ : Ty) (hwf : f.wf = true) (hev : evaluable f = true)
+    (hfr : inFrag f = true) (hty : f.typeOf = some τ) :
+    eval (interpOf σ) (simp (substConst σ f)) = eval (interpOf σ) f ∧ (simp (substConst σ f)).wf = true := by
+  have hqf := evaluable_qf f hev
+  obtain ⟨⟨gw, gty, gfr⟩, _⟩ := substConst_spec σ hσ f hwf hqf hfr τ hty
+  refine ⟨?_, (simp_spec _ gw gfr τ gty).1.2⟩
+  have := simpWith_total ruleOf ruleOf_ok _ gw gfr τ gty _ (interpOf_wf σ hσ) (interpOf_tot σ)
+  rw [show simp (substConst σ f) = simpWith ruleOf (substConst σ f) from rfl, this]
+  exact substConst_eval σ hσ _ (interpOf_extends σ hσ) f hwf hqf
+
+/-- if the simplified substituted formula is a constant (what `get_value` tests), it is the
+constant node of the value of the formula -/
+theorem const_of_simp_subst (σ : Asg) (hσ : AsgOK σ) (f : Term) (τ : Ty) (hwf : f.wf = true)
+    (hev : evaluable f = true) (hfr : inFrag f = true) (hty : f.typeOf = some τ)
+    (hc : Build.isConstant (simp (substConst σ f)) = true) (hna : ∀ i e, τ ≠ .array i e) :
+    simp (substConst σ f) = constOf (eval (interpOf σ) f) := by
+  obtain ⟨e, sw⟩ := simp_subst_eval σ hσ f τ hwf hev hfr hty
+  have hqf := evaluable_qf f hev
+  obtain ⟨⟨gw, gty, gfr⟩, _⟩ := substConst_spec σ hσ f hwf hqf hfr τ hty
+  have sty := (simp_spec _ gw gfr τ gty).1.1
+  -- a constant that is not an array value is a scalar constant node
+  have hop : (simp (substConst σ f)).op.isConstant = true := by
+    cases hs : simp (substConst σ f) with
+    | node o as q =>
+      rw [hs] at hc sty sw
+      simp only [Term.op]
+      by_cases ho : o = .arrayValue
+      · subst ho
+        rw [typeOf_node] at sty
+        obtain ⟨idx, d, rest, _, _, _, rfl⟩ := typeOfNode_arrayValue sty
+        exact absurd rfl (hna idx d)
+      · rw [isConstant_nonarray ho] at hc; exact hc
+  rw [← e]
+  exact const_constOf _ sw hop _
 
 end PySMT.Model
